@@ -30,7 +30,7 @@ type DirEntry struct {
 // DirCase: a directory and the way the tool is run on it.
 type DirCase struct {
 	Entries []DirEntry `json:"entries"`
-	Mode    string     `json:"mode"` // cli-d | cli-p | cli-f-each | lib-each
+	Mode    string     `json:"mode"`              // cli-d | cli-p | cli-f-each | lib-each
 	Pattern string     `json:"pattern,omitempty"` // cli-p: glob relative to the directory ("" = *.go)
 }
 
@@ -128,6 +128,15 @@ func genDirCase(t *rapid.T) *DirCase {
 		}
 		used[e.Name] = true
 		c.Entries = append(c.Entries, e)
+		// a sibling whose name derives from a Go file's name (editor backups, temp files of other tools)
+		if strings.HasSuffix(e.Name, ".go") && e.Kind != "subdir" && rapid.IntRange(0, 3).Draw(t, "sibling") == 0 {
+			sib := DirEntry{Kind: "nongo", Name: e.Name + rapid.SampledFrom([]string{".tmp", ".bak", "~", ".swp", ".orig", ".new", ".lock"}).Draw(t, "sibExt"),
+				Text: "precious bytes of another tool\n// @tag valid:\"x\"\n"}
+			if !used[sib.Name] {
+				used[sib.Name] = true
+				c.Entries = append(c.Entries, sib)
+			}
+		}
 	}
 	modes := []string{"lib-each"}
 	if haveCLI() {
@@ -217,7 +226,7 @@ func checkDir(c *DirCase) (msg string, badBeforeGood bool) {
 	for _, f := range files {
 		b, err := os.ReadFile(f.path)
 		if err != nil {
-			return "harness: " + err.Error(), badBeforeGood
+			return fmt.Sprintf("entry %s is gone after the run: %v", f.e.Name, err), badBeforeGood
 		}
 		out := string(b)
 		switch {
